@@ -150,6 +150,27 @@ func (r *ref) step(f []string, op, o string) fw.Verdict {
 		for k := range r.files { // a compaction re-blocks the key; the layout facts are void
 			r.files[k], r.written[k] = 1, 0
 		}
+	case "creset":
+		*r = *newRef()
+		if len(f) > 1 {
+			r.indexType = f[1]
+		}
+	case "cw":
+		return r.step(append([]string{"w"}, f[1:]...), op, o)
+	case "cdel":
+		return r.step([]string{"del", f[1], "-", f[2], f[3]}, op, o)
+	case "copy":
+		if f[1] != "full" {
+			if o != "refused" {
+				sig := "a shard copy whose source stream was cut is reported as successful"
+				if f[1] == "nosrc" {
+					sig = "a shard copy from a source that does not have the shard is reported as successful"
+				}
+				return fw.Verdict{OK: false, Why: fmt.Sprintf("%.200s answered %.300s: the destination reported success, so the metadata would advertise it as an owner of a shard it does not fully hold", op, o), Signature: sig}
+			}
+			return fw.Verdict{OK: true}
+		}
+		return r.step([]string{"bk", "full", f[2], f[3]}, op, o)
 	case "bk":
 		lo, hi := int64(-1<<63), int64(1<<63-1)
 		if p := strings.Split(f[1], ":"); p[0] == "export" {
